@@ -19,6 +19,29 @@ func findFieldInitCallee(prog *load.Program, typeName, field string) *types.Func
 	var found *types.Func
 	for _, f := range pk.Syntax {
 		ast.Inspect(f, func(n ast.Node) bool {
+			// x.Field = f(..) for a value of the template type
+			if as, ok := n.(*ast.AssignStmt); ok && len(as.Lhs) == len(as.Rhs) {
+				for i, l := range as.Lhs {
+					sel, ok := ast.Unparen(l).(*ast.SelectorExpr)
+					if !ok || sel.Sel.Name != field {
+						continue
+					}
+					fv, ok := pk.TypesInfo.ObjectOf(sel.Sel).(*types.Var)
+					if !ok || !fv.IsField() {
+						continue
+					}
+					nt, _ := types.Unalias(derefNamed(pk.TypesInfo.TypeOf(sel.X))).(*types.Named)
+					if nt == nil || nt.Obj().Name() != typeName || nt.Obj().Pkg().Path() != load.PkgTemplate {
+						continue
+					}
+					if call, ok := ast.Unparen(as.Rhs[i]).(*ast.CallExpr); ok {
+						if fn, ok := typeutil.Callee(pk.TypesInfo, call).(*types.Func); ok && prog.IsMoqPkg(fn.Pkg()) {
+							found = fn
+						}
+					}
+				}
+				return true
+			}
 			cl, ok := n.(*ast.CompositeLit)
 			if !ok {
 				return true
@@ -467,4 +490,14 @@ func si0(mi MockInfo, i int) int {
 		return 0
 	}
 	return i
+}
+
+func derefNamed(t types.Type) types.Type {
+	if t == nil {
+		return nil
+	}
+	if p, ok := t.Underlying().(*types.Pointer); ok {
+		return p.Elem()
+	}
+	return t
 }
